@@ -10,6 +10,7 @@ package main
 
 import (
 	"bufio"
+	"bytes"
 	"encoding/json"
 	"flag"
 	"fmt"
@@ -64,30 +65,30 @@ type gstate struct {
 }
 
 type run struct {
-	sc     scenario
-	loop   *eventloop.EventLoop
-	mu     sync.Mutex
-	gs     map[int64]*gstate
-	events []string
-	t0     time.Time
-	rng    *hx.Rng
-	jobIDs map[interface{}]int
-	nJobs  int
-	nFn    int
-	nLoopG int
-	jsH    map[int]goja.Value
-	goT    map[int]*eventloop.Timer
-	goI    map[int]*eventloop.Interval
-	started chan struct{} // closed/sent when a foreground start has passed setRunning
-	stuck  bool
-	steps  int
-	cbDepth int
+	sc        scenario
+	loop      *eventloop.EventLoop
+	mu        sync.Mutex
+	gs        map[int64]*gstate
+	events    []string
+	t0        time.Time
+	rng       *hx.Rng
+	jobIDs    map[interface{}]int
+	nJobs     int
+	nFn       int
+	nLoopG    int
+	jsH       map[int]goja.Value
+	goT       map[int]*eventloop.Timer
+	goI       map[int]*eventloop.Interval
+	started   chan struct{} // closed/sent when a foreground start has passed setRunning
+	stuck     bool
+	steps     int
+	cbDepth   int
 	pctChange []int
-	epoch  int
-	spawns int // goroutines that have been started but have not registered yet (the system is not settled)
-	inJS   bool
-	aborted bool
-	errors []string
+	epoch     int
+	spawns    int // goroutines that have been started but have not registered yet (the system is not settled)
+	inJS      bool
+	aborted   bool
+	errors    []string
 }
 
 var cur *run
@@ -258,9 +259,32 @@ func (r *run) settle() (parked []*gstate, allDone bool) {
 			n = runtime.Stack(stackBuf, true)
 		}
 		status := map[int64]string{}
-		for _, m := range statusRe.FindAllSubmatch(stackBuf[:n], -1) {
-			id, _ := strconv.ParseInt(string(m[1]), 10, 64)
-			status[id] = string(m[2])
+		idx := statusRe.FindAllSubmatchIndex(stackBuf[:n], -1)
+		for k, m := range idx {
+			id, _ := strconv.ParseInt(string(stackBuf[m[2]:m[3]]), 10, 64)
+			st := string(stackBuf[m[4]:m[5]])
+			// A goroutine that waits for a mutex may be waiting for the harness's own lock (inside the hook, on
+			// its way to its next yield point): that one is running, not blocked by the code under test.
+			if base := strings.SplitN(st, ",", 2)[0]; base == "sync.Mutex.Lock" || base == "semacquire" {
+				end := n
+				if k+1 < len(idx) {
+					end = idx[k+1][0]
+				}
+				// the function that asked for the lock: the first frame that is not runtime / sync / internal
+				for _, ln := range bytes.Split(stackBuf[m[0]:end], []byte("\n"))[1:] {
+					if len(ln) == 0 || ln[0] == '\t' {
+						continue // file:line
+					}
+					if bytes.HasPrefix(ln, []byte("sync.")) || bytes.HasPrefix(ln, []byte("runtime.")) || bytes.HasPrefix(ln, []byte("internal/")) {
+						continue
+					}
+					if bytes.HasPrefix(ln, []byte("main.")) {
+						st = "running (harness lock)"
+					}
+					break
+				}
+			}
+			status[id] = st
 		}
 		r.mu.Lock()
 		busy := false
